@@ -488,6 +488,15 @@ fn cmp_nint_f64(a: &NInt, b: &f64) -> Option<Ordering> {
     }
 }
 
+// how any finite number compares to an infinite float
+fn cmp_finite_to_infinite(inf: f64) -> Ordering {
+    if inf.is_sign_positive() {
+        Ordering::Less
+    } else {
+        Ordering::Greater
+    }
+}
+
 // useful to project down to this for ease of doing stuff
 enum NNumReal<'a> {
     Int(&'a NInt),
@@ -546,6 +555,12 @@ impl<'a> PartialOrd for NNumReal<'a> {
             (NNumReal::Int(a), NNumReal::Float(b)) => cmp_nint_f64(a, b),
             (NNumReal::Float(a), NNumReal::Int(b)) => cmp_nint_f64(b, a).map(|ord| ord.reverse()),
             (NNumReal::Float(a), NNumReal::Float(b)) => a.partial_cmp(b),
+            (NNumReal::Rational(_), NNumReal::Float(b)) if b.is_infinite() => {
+                Some(cmp_finite_to_infinite(*b))
+            }
+            (NNumReal::Float(a), NNumReal::Rational(_)) if a.is_infinite() => {
+                Some(cmp_finite_to_infinite(*a).reverse())
+            }
             (a, b) => a.exact_to_rational()?.partial_cmp(&b.exact_to_rational()?),
         }
     }
@@ -564,6 +579,12 @@ impl<'a> NNumReal<'a> {
             (NNumReal::Float(a), NNumReal::Float(b)) => {
                 a.partial_cmp(b).unwrap_or(b.is_nan().cmp(&a.is_nan()))
             } // note swap
+            (NNumReal::Rational(_), NNumReal::Float(b)) if b.is_infinite() => {
+                cmp_finite_to_infinite(*b)
+            }
+            (NNumReal::Float(a), NNumReal::Rational(_)) if a.is_infinite() => {
+                cmp_finite_to_infinite(*a).reverse()
+            }
             (a, b) => match (a.exact_to_rational(), b.exact_to_rational()) {
                 (Some(a), Some(b)) => a.cmp(&b),
                 _ => b.is_nan().cmp(&a.is_nan()),
@@ -580,6 +601,12 @@ impl<'a> NNumReal<'a> {
             }
             (NNumReal::Float(a), NNumReal::Float(b)) => {
                 a.partial_cmp(b).unwrap_or(a.is_nan().cmp(&b.is_nan()))
+            }
+            (NNumReal::Rational(_), NNumReal::Float(b)) if b.is_infinite() => {
+                cmp_finite_to_infinite(*b)
+            }
+            (NNumReal::Float(a), NNumReal::Rational(_)) if a.is_infinite() => {
+                cmp_finite_to_infinite(*a).reverse()
             }
             (a, b) => match (a.exact_to_rational(), b.exact_to_rational()) {
                 (Some(a), Some(b)) => a.cmp(&b),
